@@ -70,6 +70,7 @@ package interp
 //@ func (t *itype) convertibleTo(o) (r)
 //@   props C12
 //@   opt safety = off
+//@   opt function = true
 //@   opt opaque-calls = *
 //@   opt opaque-havoc = none
 //@   requires [assume] t != nil && o != nil
@@ -77,3 +78,41 @@ package interp
 //@   let ok: o.TypeOf().Kind()
 //@   ensures exactly-the-admitted-conversions: r == (t.assignableTo(o) || ((tk == reflect.Ptr || tk == reflect.Uintptr) && ok == reflect.UnsafePointer) || (tk == reflect.UnsafePointer && (ok == reflect.Ptr || ok == reflect.Uintptr)) || rtConvertibleTo(t.TypeOf(), o.TypeOf()))
 //@   canary r == t.assignableTo(o)
+
+// Operator admissibility (typecheck.op with the opPredicates tables): an operator is accepted only when
+// the table has a predicate for it and the predicate holds for the operand type.
+//@ func (check typecheck) op(p, a, n, c, t) (err)
+//@   props C12
+//@   opt safety = off
+//@   opt opaque-calls = *
+//@   opt opaque-havoc = none
+//@   opt fn-values = pure
+//@   ensures accepted-only-if-the-operator-is-defined-on-the-type: err == nil ==> has(p, a) && p[a] != nil && p[a](t)
+//@   ensures defined-operator-is-accepted: has(p, a) && p[a] != nil && p[a](t) ==> err == nil
+//@   canary err == nil
+
+// Shifts: the left operand is of integer type, or an untyped constant representable as an integer; the
+// count is of integer type, or an untyped constant (converted to uint, hence non-negative).
+//@ func (check typecheck) shift(n) (err)
+//@   props C12
+//@   opt safety = off
+//@   opt opaque-calls = *
+//@   opt opaque-havoc = none
+//@   requires [assume] n != nil && len(n.child) == 2 && n.child[0] != nil && n.child[1] != nil && n.child[0].typ != nil && n.child[1].typ != nil
+//@   ensures left-operand-is-an-integer: err == nil ==> isInt(old(n.child[0].typ).TypeOf()) || (old(n.child[0].typ.untyped && n.child[0].rval.IsValid()) && constKind(constToInt(old(cOf(n.child[0].rval)))) == 3)
+//@   ensures count-is-an-integer: err == nil ==> old(n.child[1].typ.untyped) || isInt(old(n.child[1].typ).TypeOf())
+//@   canary err == nil ==> isInt(old(n.child[0].typ).TypeOf())
+
+// Conversions T(x): a constant operand converted to a constant type must be representable in it (or be
+// an integer converted to a string type); any other operand must be convertible to T.
+//@ trusted func isConstType(t) (r)
+//@   pure
+//@ func (check typecheck) conversion(n, typ) (err)
+//@   props C12
+//@   opt safety = off
+//@   opt opaque-calls = *
+//@   opt opaque-havoc = none
+//@   requires [assume] n != nil && typ != nil && n.typ != nil
+//@   ensures constant-operand-representable-in-a-constant-type: err == nil && old(isC(n.rval)) && isConstType(typ) ==> representableConst(old(cOf(n.rval)), typ.TypeOf()) || (isInt(old(n.typ).TypeOf()) && isString(typ.TypeOf()))
+//@   ensures other-operands-convertible: err == nil && !(old(isC(n.rval)) && isConstType(typ)) ==> old(n.typ).convertibleTo(typ)
+//@   canary err == nil ==> old(n.typ).convertibleTo(typ)
